@@ -129,19 +129,21 @@ def generate_contract(task):
 
 
 def discharge_contracts(rep: Report, modname, n_contracts, timeout_ms, jobs=None):
-    """generate (one process per contract) and discharge all obligations of the contracts of `modname` that carry rep.pid;
-    fills rep; returns {obligation name: [failed atom queries]}"""
+    """generate (one process per contract) and discharge all obligations of the contracts of `modname` (or of a list of
+    (modname, count) pairs) that carry rep.pid; fills rep; returns {obligation name: [failed atom queries]}"""
     all_obs = []
     if not rep.extra.get("euclid_lemma_proved"):
         if not D.selfcheck_lemmas():
             rep.errors.append("Euclid uniqueness lemma could not be re-proved")
         rep.extra["euclid_lemma_proved"] = True
-    tasks = [(modname, i, rep.repo, rep.pid) for i in range(n_contracts)]
+    pairs = modname if isinstance(modname, list) else [(modname, n_contracts)]
+    tasks = [(mn, i, rep.repo, rep.pid) for mn, cnt in pairs for i in range(cnt)]
     jobs_n = jobs or min(16, os.cpu_count() or 4)
     if len(tasks) == 1 or jobs_n == 1:
         gen = [generate_contract(t) for t in tasks]
     else:
         gen = list(D._pool(jobs_n).map(generate_contract, tasks))
+    rep.extra["generation_wall_s"] = round(time.time() - rep.t0, 1)
     for g in gen:
         rep.functions.append({"function": f"{g['file']}:{g['qual']}", "contract": g["name"], "props": g["props"], "line": g.get("line", 0),
                               "obligation_instances": g.get("n_obligations", 0), "paths": g.get("n_paths", 0), "note": g["note"], "gen_s": g.get("gen_s", 0)})
@@ -154,7 +156,9 @@ def discharge_contracts(rep: Report, modname, n_contracts, timeout_ms, jobs=None
         if not g.get("n_obligations"):
             rep.errors.append(f"{g['name']}: zero obligations generated")
         all_obs += g["queries"]
+    t_solve = time.time()
     D.run_queries(all_obs, jobs=jobs, timeout_ms=timeout_ms, thorough=(rep.tier == "thorough"), seed=rep.seed)
+    rep.extra["solve_wall_s"] = round(time.time() - t_solve, 1)
     rep.n_queries += len(all_obs)
     failed = {}
     canary_ok = {}
